@@ -229,9 +229,9 @@ def abstract_call(cls, ds, fitted_before, min_freq=None):
         if min_freq is None:
             return True
         try:
-            vc = X[f].value_counts(normalize=True, dropna=False)
-            vc = vc[[k for k in vc.index if fitgen.cell(k) is not None]]
-            return not (len(vc) and float(vc.max()) < min_freq)
+            # the code's own expression (a missing value held as None is not dropped by `.drop(nan)` and counts as a value)
+            m = X[f].value_counts(normalize=True, dropna=False).drop(np.nan, errors="ignore").max()
+            return not (float(m) < min_freq)
         except Exception:
             return True
     return {
